@@ -287,7 +287,7 @@ def main():
         else:
             args.append("compress")
             ip = os.path.join(d, "input.bin")
-            data = source[: rnd.randint(1, len(source))]
+            data = b"" if m.get("empty_input") else source[: rnd.randint(1, len(source))]
             if m["stdin_seed"]:
                 stdin_data = data      # input delivered on stdin
             else:
